@@ -356,7 +356,8 @@ class Sym:
     def all(self):
         return mk(truth(self))
 
-    def item(self):
+    def item(self, *index):
+        # (a scalar: item() and item(0) are the value itself)
         return self
 
     def astype(self, t):
